@@ -23,7 +23,10 @@ VARIABLES tid, l, s, phase, k, v
 tvars == <<tid, l, s, phase, k, v>>
 
 \* hostOnlyKey, staleExpiry, pathAlias, domainCase
-DevSubsets == <<
+\* Deviations repaired in /repo by `fix:` commits are no longer admissible explanations
+\* (hostOnlyKey, staleExpiry, domainCase); only pathAlias is still present in the code.
+StillPresent == <<FALSE, FALSE, TRUE, FALSE>>
+AllSubsets == <<
     <<TRUE, FALSE, FALSE, FALSE>>,
     <<FALSE, FALSE, FALSE, TRUE>>,
     <<FALSE, FALSE, TRUE, FALSE>>,
@@ -40,6 +43,7 @@ DevSubsets == <<
     <<FALSE, TRUE, TRUE, TRUE>>,
     <<TRUE, TRUE, TRUE, TRUE>>
 >>
+DevSubsets == SelectSeq(AllSubsets, LAMBDA d : \A i \in 1..4 : d[i] => StillPresent[i])
 AllDevs == Len(DevSubsets)
 
 CfDev(c, kk) ==
